@@ -662,7 +662,8 @@ void execute_assignment(StatementExecutor *executor, Interpreter &interpreter,
                     "Invalid object reference in member array access");
             }
             std::string member_name = node->left->left->name;
-            int64_t index = interpreter.evaluate(node->left->array_index.get());
+            int64_t index = Variable::index_to_int(
+                interpreter.evaluate(node->left->array_index.get()));
 
             // 右辺を評価
             if (node->right->node_type == ASTNodeType::AST_STRING_LITERAL) {
@@ -797,7 +798,7 @@ void execute_assignment(StatementExecutor *executor, Interpreter &interpreter,
             // 単一次元配列要素への代入
             int64_t index_value =
                 interpreter.evaluate(node->left->array_index.get());
-            int index = static_cast<int>(index_value);
+            int index = Variable::index_to_int(index_value);
 
             std::string var_name;
             if (node->left->left &&
